@@ -408,9 +408,19 @@ def v10(ctx):
     n = 0
     for rid in roots:
         b = mir.inline_view(crate, crate.bodies[rid])
-        regs = [c for c in b.calls if c.callee and c.callee.name == "insert" and c.args and role_mentions_field(b.role_of_operand(c.args[0]), "pattern_slots") and not b.blocks[c.bb]["cleanup"]]
+        regs = [c for sub in b.all_bodies() for c in sub.calls if c.callee and c.callee.name == "insert" and c.args and role_mentions_field(sub.role_of_operand(c.args[0]), "pattern_slots") and not sub.blocks[c.bb]["cleanup"]]
         if not regs:
             continue
+
+        def dominated_in_root(c, edges):
+            """call c (in the root body or in a closure created there) only runs after `edges` of the root body"""
+            sub, bb = c.body, c.bb
+            while sub is not b and sub.creation is not None and sub.parent_body is not None:
+                par = sub.creation[0]
+                cl_local = par.blocks[sub.creation[1]]["stmts"][sub.creation[2]]["lhs"]["l"]
+                uses = [x.bb for x in par.calls if any((mir.op_place(a) or {}).get("l") == cl_local for a in x.args)] or [sub.creation[1]]
+                sub, bb = (b if par.id == b.id else par), uses[0]
+            return sub is b and b.dominated_by(bb, edges)
         n += 1
         # (a) shape gate
         gate = [e for e, cond in C.all_cond_edges(b) if cond[0] == "eq" and len(cond) == 3 and role_mentions_call(cond[1], "weak_shape") and role_mentions_call(cond[2], "weak_shape")
@@ -421,20 +431,20 @@ def v10(ctx):
                 ps = [{x[1] for x in role_walk(s_) if isinstance(x, tuple) and x[0] == "param"} for s_ in (cond[1], cond[2])]
                 sides_ok = sides_ok or (ps[0] != ps[1] and all(ps))
         for c in regs:
-            ok = bool(gate) and b.dominated_by(c.bb, gate) and sides_ok
+            ok = bool(gate) and dominated_in_root(c, gate) and sides_ok
             ctx.check(ok, "shape-equality-gate:" + C.fkey(crate.bodies[rid]), "slots of an e-node are related to the pattern node's only after weak_shape(nullified pattern node) == weak_shape(nullified e-node)",
                       "%s relates the slots of an e-node to the pattern node's without their name-free shapes having been compared: a node with another operator / another binding structure is accepted as a match" % C.short(rid),
-                      where_of(b, c.bb))
+                      where_of(c.body, c.bb))
         # (b) registration before unification, same slot
-        unions = [c for c in b.calls if c.callee and c.callee.target in crate.bodies and crate.bodies[c.callee.target].local_ty(0).startswith("std::option::Option<rewrite::multipat::MultiState")
-                  and c.callee.target != rid and not b.blocks[c.bb]["cleanup"]]
+        unions = [c for sub in b.all_bodies() for c in sub.calls if c.callee and c.callee.target in crate.bodies and crate.bodies[c.callee.target].local_ty(0).startswith("std::option::Option<rewrite::multipat::MultiState")
+                  and c.callee.target != rid and not sub.blocks[c.bb]["cleanup"]]
         ctx.floor("slot unifications in " + C.short(rid), len(unions), 1)
         for u in unions:
-            first = strip_role(b.role_of_operand(u.args[0]))
-            ok = any(strip_role(b.role_of_operand(c.args[1])) == first and b.dominated_by(u.bb, [c.bb]) for c in regs if len(c.args) > 1)
+            first = strip_role(u.body.role_of_operand(u.args[0]))
+            ok = any(c.body is u.body and strip_role(c.body.role_of_operand(c.args[1])) == first and u.body.dominated_by(u.bb, [c.bb]) for c in regs if len(c.args) > 1)
             ctx.check(ok, "pattern-slot-registered:" + C.fkey(crate.bodies[rid]), "the pattern-side slot is put into pattern_slots before it is unified with the e-graph slot",
                       "%s unifies a pattern slot with an e-graph slot without registering it in pattern_slots first: the directed slot union may then replace the pattern's own slot by an e-graph name, and the substitution handed to the rule speaks about slots the pattern does not have" % C.short(rid),
-                      where_of(b, u.bb))
+                      where_of(u.body, u.bb))
     ctx.floor("multi-pattern node matchers", n, 1)
 
 
